@@ -92,12 +92,28 @@ func patchRuntime() {
 	emit(filepath.Join(rt, "proc.go"), applyRules(filepath.Join(rt, "proc.go"), []rule{
 		{`(?m)^\tnewg\.startpc = fn\.fn\n`, "\tnewg.startpc = fn.fn\n\tnewg.simctr = 0\n\tnewg.simtag = 0\n\tnewg.simkids = 0\n\tnewg.simpath = 0\n\tnewg.simlast = -1\n", 1, 0},
 		{`(?m)^\t\tnewg\.bubble = callergp\.bubble\n`, "\t\tnewg.bubble = callergp.bubble\n\t\tnewg.simtag = callergp.simtag\n\t\tcallergp.simkids++\n\t\tnewg.simpath = simmix(callergp.simpath, callergp.simkids)\n", 1, 0},
+		// Gosched moves the goroutine to the *global* run queue, which the scheduler looks at every
+		// 61st scheduling tick of the P -- a counter that background goroutines (scavenger, sweeper)
+		// advance at real-time-dependent moments.  In a simulation the goroutine goes to the tail of
+		// the local queue instead.
+		{`(?m)^\t\} else \{\n\t\tlock\(&sched\.lock\)\n\t\tglobrunqput\(gp\)\n\t\tunlock\(&sched\.lock\)\n`, "\t} else if simSeed != 0 && gp.bubble != nil {\n\t\trunqput(pp, gp, false)\n\t} else {\n\t\tlock(&sched.lock)\n\t\tglobrunqput(gp)\n\t\tunlock(&sched.lock)\n", 1, 0},
+		// sysmon takes the P away from a goroutine that sits in a system call (file I/O) for more than
+		// 20 us of real time and hands it to another thread, which reorders everything that follows.
+		// In a simulation the P waits for the system call.
+		{`(?m)^\t\tthread\.takeP\(\)\n\t\tthread\.resume\(\)\n\t\tn\+\+\n`, "\t\tif simSeed != 0 {\n\t\t\tthread.resume()\n\t\t\tgoto done\n\t\t}\n\t\tthread.takeP()\n\t\tthread.resume()\n\t\tn++\n", 1, 0},
+		// sysmon asks a goroutine that has been on the P for 10 ms of *real* time to yield at its next
+		// function call: under load that moves scheduling points around.  Not while a simulation runs.
+		{`(?m)^\t\t\} else if pd\.schedwhen\+forcePreemptNS <= now \{\n\t\t\tpreemptone\(pp\)\n`, "\t\t} else if pd.schedwhen+forcePreemptNS <= now {\n\t\t\tif simSeed == 0 {\n\t\t\t\tpreemptone(pp)\n\t\t\t}\n", 1, 0},
 	}))
 	emit(filepath.Join(rt, "rand.go"), applyRules(filepath.Join(rt, "rand.go"), []rule{
 		{`(?m)^func maps_rand\(\) uint64 \{\n`, "func maps_rand() uint64 {\n\tif simSeed != 0 {\n\t\tif gp := getg(); gp.bubble != nil {\n\t\t\treturn simmix(simSeed, 0x6d617073)\n\t\t}\n\t}\n", 1, 0},
 		{`(?m)^func rand\(\) uint64 \{\n`, "func rand() uint64 {\n\tif simSeed != 0 {\n\t\tif gp := getg(); gp.bubble != nil {\n\t\t\treturn simnext(gp)\n\t\t}\n\t}\n", 1, 0},
 	}))
 	// (maps_rand is patched in rand.go below together with rand)
+	// same-instant fake timers are ordered by a per-timer random value: draw it from the seeded stream
+	emit(filepath.Join(rt, "time.go"), applyRules(filepath.Join(rt, "time.go"), []rule{
+		{`t\.rand = cheaprand\(\)`, "t.rand = simcheaprand32()", 1, 0},
+	}))
 	emit(filepath.Join(rt, "select.go"), applyRules(filepath.Join(rt, "select.go"), []rule{
 		{`j := cheaprandn\(uint32\(norder \+ 1\)\)`, "j := simcheaprandn(uint32(norder + 1))", 1, 0},
 	}))
